@@ -171,8 +171,12 @@ func regexCompare(field string, value string) (CompareFunc, error) {
 	if len(value) < 2 || value[0] != '/' || value[len(value)-1] != '/' {
 		return nil, fmt.Errorf("regex not enclosed in //")
 	}
-	value = fmt.Sprintf("^(?:%s)$", value[1:len(value)-1])
-	re, err := regexp.Compile(value)
+	value = value[1 : len(value)-1]
+	// The pattern must be a valid expression on its own: wrapping can make an unbalanced one compile.
+	if _, err := regexp.Compile(value); err != nil {
+		return nil, fmt.Errorf("regex failed to compile: %s", value)
+	}
+	re, err := regexp.Compile(fmt.Sprintf("^(?:%s)$", value))
 	if err != nil {
 		return nil, fmt.Errorf("regex failed to compile: %s", value)
 	}
